@@ -2351,6 +2351,21 @@ impl<'a> Sem<'a> {
                     let ds = self.in_defset;
                     self.stmt_end("Def", start, None, false, ds);
                 }
+                2 if targs.iter().all(|t| t.2) && self.rng.chance(1, 2) && self.on("self-instantiating-multiclass") => {
+                    // the multiclass instantiates what has been defined of itself so far
+                    let mut so_far = records.clone();
+                    so_far.extend(self.mc_records.iter().cloned());
+                    let m = McInfo { decl, name: name.clone(), targs: targs.clone(), records: so_far };
+                    self.w("defm ");
+                    let dn = format!("_{}", self.fresh("m"));
+                    self.declare(DeclKind::Defm, &dn, None, None, None);
+                    self.w(" : ");
+                    self.mc_ref(&m);
+                    self.w(";");
+                    for (rn, rc) in &m.records {
+                        records.push((format!("{dn}{rn}"), rc.clone()));
+                    }
+                }
                 1 if !self.mcs.is_empty() => {
                     let m = self.mcs[self.rng.below(self.mcs.len())].clone();
                     self.w("defm ");
